@@ -7,7 +7,7 @@ CONSTANTS
   FixedSkipOverrun = TRUE
   Vals = {0, 1, 2}
   Periods = {0, 1, 2, 3, 4}
-  Clocks = {0, 1}
+  Clocks = {0}
   K = 11
   G = 6
   PhaseKept = FALSE
